@@ -188,6 +188,17 @@ partial def monitorLoop (h : IO.FS.Stream) (out : IO.FS.Stream) : IO Unit := do
             for v in vs do
               out.putStrLn s!"V {n} {name} {v}"
               viol := viol + 1
+          -- C20: a message must not make the handler panic; C05: a message lowers no ordinary balance but its signer's
+          if r.startsWith "R panic" then
+            out.putStrLn s!"V {n} noPanic {r.drop 2}"; viol := viol + 1
+          let signer : Addr := match m with
+            | .call (.call _ _ _ cons _ _ _ _ _ _ _) _ _ => cons
+            | .call _ _ _ => ""
+            | .bind _ _ owner _ _ _ => owner
+          for a in (s0.bank.bal.map (·.1)) do
+            if a ≠ signer && a ≠ s0.cfg.escrow && a ≠ s0.cfg.deposit && a ≠ s0.cfg.collector && s1.bal a < s0.bal a then
+              out.putStrLn s!"V {n} authority module-service step lowered the balance of {a}, which is neither its signer nor a module account"
+              viol := viol + 1
           let (sm, rm, em) := runModOp s0 m
           let sm := match rm with | .ok => sm | _ => s0
           let em := match rm with | .ok => em | _ => []
